@@ -115,6 +115,10 @@ func (t *PageTree) Count() (int, error) {
 		return 0, fmt.Errorf("invalid /Count type: %T", countObj)
 	}
 
+	if count < 0 {
+		return 0, fmt.Errorf("invalid /Count value: %d", count)
+	}
+
 	return int(count), nil
 }
 
